@@ -1025,11 +1025,13 @@ class Phi(LocalValue):
     def replace_use(self, old, new):
         """Replace old value reference by new value reference"""
         assert old in self.inputs.values()
+        # The same value may come in via several branches, release the
+        # usage only once:
         for inp in self.inputs:
-            if self.inputs[inp] == old:
-                self.del_use(old)
+            if self.inputs[inp] is old:
                 self.inputs[inp] = new
-                self.add_use(new)
+        self.del_use(old)
+        self.add_use(new)
 
     def set_incoming(self, block, value):
         """Set the value for the phi node when entering through block"""
